@@ -11,6 +11,8 @@ var verifSQLiteTypes = []string{
 	"unsigned big int", "real", "double", "double precision", "float", "numeric", "decimal", "char", "character", "varchar",
 	"varying character", "nchar", "native character", "nvarchar", "text", "clob", "json", "jsonb", "date", "datetime", "time",
 	"timestamp", "uuid",
+	// names unknown to the driver are user-defined types: kept exactly as declared
+	"GEOMETRY", "MyType", "point",
 }
 
 func VerifHarness_C15_sqlite() {
